@@ -38,6 +38,13 @@ def check(ctx, F):
     _FN["F"] = F
     check_flow(ctx, F)
     check_pin_owner(ctx, F)
+    from . import C07, C03
+    # a re-used task slot must not inherit links (and with them another task's payload) from before PlanDataT::clear(): shared instances of C07.reset
+    C07.check_reset_plan_data(C03._Alias(ctx, {"C07.reset": "C14.plan"}), F)
+    # a replayed record is the replayed list itself, payloads included: shared instances of C09.replay
+    if any(bb.get("cls") == "R_" and bb["name"] == "replayTransitions" for bb in F.bodies.values()):
+        from . import C09 as _C09
+        _C09.check_replay(C03._Alias(ctx, {"C09.replay": "C14.flow"}), F)
     from . import C09
     if any(bb.get("cls") == "R_" and bb["name"] == "lastTransitionTo" for bb in F.bodies.values()):
         C09.check_pin_index(ctx, F, "C14.flow")
